@@ -4,6 +4,7 @@ import itertools
 from fractions import Fraction
 
 import common as C
+import gen as G
 
 PROP = 'C14'
 THEOREMS = ['pos_pow_iff_walk_thm', 'is_ergodic_unfold_thm', 'ergodic_sound_thm', 'ergodic_complete_loop_partial',
@@ -106,7 +107,7 @@ def gen(rng, tier):
     for n in range(2, 9 if tier == 'thorough' else 8):
         for v in (0, 1):
             yield {'k': 'mat', 'M': [[str(x) for x in r] for r in _norm(wielandt(n, v))], 'style': 'wielandt%d' % v}
-    N = 350 if tier == 'quick' else 8000
+    N = G.budget(350) if tier == 'quick' else 8000
     for _ in range(N):
         n = rng.choice([2, 3, 3, 4, 4, 5, 5, 6, 6, 7] if tier == 'quick' else [2, 3, 4, 5, 6, 7, 8])
         Cm, style = _random_counts(rng, n)
